@@ -191,6 +191,40 @@ def modules(tier):
                 f"from {old_mod} import {name}\n"
             yield (["mapped-alias:" + old_mod + "." + name], "nl", "\n", True), \
                 f"import os\nfrom {old_mod} import {name} as zz\nx = zz\n"
+    yield from _modules_many_names()
+
+
+def _name_lists():
+    """For every v1 module: lists of 3-5 mapped names whose v2 homes alternate (A, B, A, ...) or
+    repeat (A, A, B), every rotation of each, plain and with aliases / an unmapped name between."""
+    out = []
+    for old_mod, names in MAPPING0.items():
+        by_home = {}
+        for name, (home, _) in names.items():
+            by_home.setdefault(home, []).append(name)
+        homes = sorted(by_home, key=lambda h: (-len(by_home[h]), h))
+        if len(homes) < 2 or len(by_home[homes[0]]) < 2:
+            continue
+        A, B = by_home[homes[0]], by_home[homes[1]]
+        C = by_home[homes[2]] if len(homes) > 2 else B
+        lists = [[A[0], B[0], A[1]], [A[0], A[1], B[0]], [B[0], A[0], A[1]], [A[0], B[0], A[1], B[-1]],
+                 [A[0], B[0], C[-1], A[1], B[-1]]]
+        for names3 in lists:
+            out.append((old_mod, list(names3)))
+            out.append((old_mod, [names3[0] + " as p"] + names3[1:-1] + [names3[-1] + " as q"]))
+            out.append((old_mod, names3[:1] + ["zzz_unmapped"] + names3[1:]))
+    return out
+
+
+def _modules_many_names():
+    for old_mod, names in _name_lists():
+        line = f"from {old_mod} import " + ", ".join(names)
+        paren = f"from {old_mod} import (\n    " + ",\n    ".join(names) + ",\n)"
+        tag = "names:" + old_mod + ":" + "+".join(names)
+        yield ([tag], "nl", "\n", True), line + "\n"
+        yield ([tag, "assign"], "nl", "\n", False), line + "\nx = 1"
+        yield ([tag + ":paren"], "nl", "\n", True), "import os\n" + paren + "\ny = 2\n"
+        yield ([tag + ":crlf"], "nl", "\r\n", True), line + "\r\ny = 2\r\n"
 
 
 def worker(shard, nshards, tier, seed, mode="shard"):
